@@ -176,6 +176,14 @@ func (mc *Chain) processVerifyBlock(ctx context.Context, b *block.Block) error {
 		return err
 	}
 
+	// the tickets a received block carries are covered neither by its hash nor by the
+	// generator's signature: they may count only if they verify
+	if err := mc.VerifyBlockTickets(ctx, b); err != nil {
+		logging.Logger.Debug("verify block - invalid verification tickets",
+			zap.Int64("round", b.Round), zap.String("block", b.Hash), zap.Error(err))
+		return err
+	}
+
 	if b.Round < mc.GetCurrentRound()-1 {
 		logging.Logger.Debug("verify block - round mismatch",
 			zap.Int64("current_round", mc.GetCurrentRound()),
@@ -247,7 +255,6 @@ func (mc *Chain) processVerifyBlock(ctx context.Context, b *block.Block) error {
 
 	vts := mr.GetVerificationTickets(b.Hash)
 
-	// TODO: mc.MergeVerificationTickets does not verify block's own tickets, might be a problem!
 	mc.MergeVerificationTickets(b, vts)
 	if !b.IsBlockNotarized() {
 		mc.AddToRoundVerification(ctx, mr, b)
